@@ -115,7 +115,8 @@ CHECKS["C20"] = dict(
           "are warmed up with one call per argument class (bodies delegate through call_next and recurse, so continuation entries are warmed too); "
           "every answer of a predicate, hook or issubclass on a harness class is a solver variable and every consultation is counted. On each path "
           "class a repeated call that had succeeded must not move the counter (nor compare priorities); after a registration the function is "
-          "re-warmed and the same must hold."),
+          "re-warmed and the same must hold. Every fourth method set is called through a linkback copy whose parent is used for the first time "
+          "between the phases (not a change: no consultation allowed afterwards) and which receives the late registration through the parent."),
     note=("Bounds: 3 classes, 3 methods (+1 late), 1 position, arguments K0/K1/object(); 160 / 640 method sets, per-shape exploration budget 4 s quick / 25 s thorough: "
           "shapes whose space is not exhausted are reported as inconclusive counts, never as passed-exhaustively. Calls that fail in the warm-up are "
           "outside the statement."),
@@ -190,7 +191,8 @@ CHECKS["C17"] = dict(
           "0-3 same-named definitions per body and extend_super markers are generated as source and executed; after all classes exist, instances of every "
           "class are probed once per class of argument hierarchies. The expected behaviour of each class comes from a method table computed by the "
           "generator (own definitions; with extend_super the tables of all bases first, identical signatures replaced; a single definition is an "
-          "ordinary method) realised as a flat overloaded function of module-level twins; chains, results/errors and the identity of self must agree."),
+          "ordinary method; an extend_super marker with nothing to extend survives on a root or plain mixin class and makes a class listing it as a "
+          "non-first base merge it) realised as a flat overloaded function of module-level twins; chains, results/errors and the identity of self must agree."),
     note=("Bounds: 900 sampled programs quick / 10000 thorough; bodies return / call_next / recurse over a nested list; the program quantifier is enumerated, "
           "only the argument hierarchy is symbolic. extend_super on a non-first definition and priorities inside class bodies are outside the claim."),
 )
@@ -201,13 +203,16 @@ CHECKS["C18"] = dict(
     text=("For first-use build, rebuild after a registration on a used function and cache-miss resolution (method sets with call_next continuations, a "
           "value-dependent method and a recursive container method), an InjectedFault is raised when the kappa-th executed source line of ovld or of "
           "its generated code is about to run; kappa is a solver variable whose every value (and 'beyond the end') is one path class. Afterwards calls "
-          "through the public function object and through resolve() must equal those of a cleanly built function with the complete method set. "
-          "Natural failures (conflicting argument names, call_next not called, unreadable source at every registration position; a user class "
+          "through the public function object and through resolve() must equal those of a cleanly built function with the complete method set "
+          "(for an interrupted register(): the set the function lists afterwards). "
+          "Natural failures (conflicting argument names, call_next not called, unreadable source at every registration position, also arriving on a "
+          "function already in use and on one with a linkback copy in use; a user class "
           "predicate raising on its j-th invocation) must keep failing with a configuration error and the function must work normally once the "
           "offender is unregistered."),
-    note=("Bounds: one fault per run, between source lines; quick: 7 scenarios x ~1000-2500 crash points on a fixed hierarchy (exhaustive), 9 natural-failure "
+    note=("Bounds: one fault per run, between source lines; quick: 7 scenarios x ~1000-2500 crash points on a fixed hierarchy (exhaustive), 27 natural-failure "
           "shapes, 2 hook shapes; thorough: 18 scenarios with the hierarchy symbolic as well. Here the solver is the bounded model checker's "
-          "bookkeeper (finite domain), as DESIGN.md states. Two defects found by this check were repaired (3a088b7, c16687c)."),
+          "bookkeeper (finite domain), as DESIGN.md states. Three defects found by this check were repaired (3a088b7, c16687c, a6739d8); the window between a "
+          "table change and the take-out-of-service step is a recorded finding (C18-interrupt-before-takeout)."),
 )
 
 CHECKS["C19"] = dict(
@@ -217,8 +222,9 @@ CHECKS["C19"] = dict(
           "call_next chain, a call racing resolve()). A baton makes exactly one of them runnable; every executed ovld source line of thread A is a "
           "possible switch point and the solver enumerates them all (one path class per schedule, plus 'no pre-emption'); a thread that would block on "
           "the function's build lock hands the turn back. Each thread's outcome must equal its outcome alone on a fresh function and afterwards every "
-          "probe must equal the sequentially used function; a hang is a violation."),
-    note=("Bounds: 2 threads, 1 pre-emption at every line (quick: 6 scenarios, ~8200 schedules, exhaustive; thorough: 10 scenarios plus 2 pre-emptions on "
+          "probe must equal the sequentially used function; a hang is a violation. A lock hand-over family starts B while A builds (B waits for the "
+          "build lock), then pre-empts A after the release and B after it obtained the lock (two further solver integers, stepped)."),
+    note=("Bounds: 2 threads, 1 pre-emption at every line (quick: 6 scenarios, ~8200 schedules, exhaustive, plus ~5000 hand-over schedules at every 10th line of A and of B; thorough: 10 scenarios plus 2 pre-emptions on "
           "a reduced set of first switch points), fixed hierarchy, line granularity (switches inside a line are outside the claim). The solver's role is "
           "finite-domain bookkeeping. Defect repaired: 537fde9 (unsynchronised lazy build)."),
 )
